@@ -3,7 +3,7 @@
 cd /verif
 out=${1:-/verif/work/mutant_matrix.txt}
 : > $out
-for d in seeded/C*_* seeded/REVERT_*; do
+for d in seeded/C*_[0-9] seeded/REVERT_*; do
   m=$(basename $d); p=${m%_*}
   case $m in REVERT_*) p=$(python3 -c "import json,sys; print(json.load(open('seeded/$m/meta.json'))['property'])");; esac
   [ -f tools/props/$(echo $p | tr A-Z a-z).py ] || { echo "$m $p NO-CHECK" >> $out; continue; }
